@@ -22,19 +22,153 @@ def has_out_of_range_numeral(text):
     return any(len(m.group()) >= 19 and int(m.group()) > ISIZE_MAX for m in DIGITS.finditer(text))
 
 
-def classify(cmd_id, text, stderr, timed_out=False):
-    """The recorded class a crash belongs to, or None.  `text` is the mutated input (bytes)."""
+# ---- measures of an input text (decidable on the text; one pass over its tokens, no recursion)
+MTOK = re.compile(rb"[A-Za-z_][A-Za-z0-9_']*|\d+|<->|->|<-|:-|!=|<=|>=|\.\.|#[a-z]+|\$[gis]?|%[^\n]*|\s+|.", re.S)
+M_OPS = {b"-", b"+", b"*", b"/", b"\\", b"..", b"not", b"and", b"or", b"->", b"<-", b"<->", b"forall", b"exists"}
+M_SEPS = {b",", b";", b":-", b"."}
+
+
+def measures(text):
+    """(opdepth, nestdepth, width) of a text (bytes).
+
+    The text is read as a tree of bracket groups `( .. )` / `{ .. }`, each cut into segments at `,` `;` `:-` `.`.
+    ops(segment) = number of operator / connective / quantifier tokens (- + * / \\ .. not and or -> <- <-> forall exists)
+    written directly in it.
+    * opdepth  = max over segments of ops(segment) + max opdepth of the groups inside it.  An UPPER BOUND of the depth
+      of operator nodes in the syntax tree anthem builds (every operator node above a leaf is written in one of the
+      segments around the leaf), and equal to it on chains (`---1`, `1+(1+(..))`, `1+1+1..` which is left-nested,
+      `not not ..`, `forall X (exists Y (..))`, `p -> (p -> ..)`).  Blanks and bare parentheses do not count.
+    * nestdepth = the same with every bracket group counting 1 more: bounds the recursion depth of the PARSER.
+    * width    = the largest number of `,`/`;`-separated items of one bracket group or of one statement (the literals
+      of a rule body), or of consecutive variables (a quantifier block)."""
+    def close_segment(fr):
+        fr[0] = max(fr[0], fr[2] + fr[3])
+        fr[1] = max(fr[1], fr[2] + fr[4])
+        fr[2] = fr[3] = fr[4] = 0
+
+    def close_group(stack):
+        fr = stack.pop()
+        close_segment(fr)
+        up = stack[-1]
+        up[3] = max(up[3], fr[0])
+        up[4] = max(up[4], fr[1] + 1)
+        return fr[5]
+
+    # frame: [opdepth of closed segments, nestdepth of closed segments, ops of the open segment,
+    #         max opdepth / nestdepth of the groups of the open segment, items]
+    stack = [[0, 0, 0, 0, 0, 1]]
+    width = run_vars = 0
+    for m in MTOK.finditer(text):
+        t = m.group()
+        c = t[:1]
+        if c.isspace() or c == b"%":
+            continue
+        fr = stack[-1]
+        if t in M_OPS:
+            fr[2] += 1
+            run_vars = 0
+        elif t in (b"(", b"{"):
+            stack.append([0, 0, 0, 0, 0, 1])
+            run_vars = 0
+        elif t in (b")", b"}"):
+            if len(stack) > 1:
+                width = max(width, close_group(stack))
+            run_vars = 0
+        elif t in M_SEPS:
+            close_segment(fr)
+            if t in (b",", b";"):
+                fr[5] += 1
+            elif t == b"." and len(stack) == 1:      # end of a statement: its top-level items (body literals) are a group too
+                width = max(width, fr[5])
+                fr[5] = 1
+            run_vars = 0
+        elif c.isupper() or c == b"_":
+            run_vars += 1
+            width = max(width, run_vars)
+        elif c != b"$":
+            run_vars = 0
+    while len(stack) > 1:
+        width = max(width, close_group(stack))
+    close_segment(stack[0])
+    return stack[0][0], stack[0][1], max(width, stack[0][5])
+
+
+# ---- the recorded classes (known_findings.jsonl).  Every class = a condition on the INPUT TEXT (decidable) plus the
+# symptom plus, for the slow classes, a CONTROL RUN (the same command line without the slow stage must finish):
+F15_OPDEPTH = 100      # F15: verify with simplification, operator nesting >= 100: slower than the watchdog
+F20_NESTDEPTH = 1000   # F20: stack overflow (SIGABRT, "has overflowed its stack"), nesting >= 1000 (smallest aborting input observed: 1167)
+F21_WIDTH = 40         # F21: verify with simplification / simplify, an atom or quantifier block of >= 40 items
+F22_OPDEPTH = 500      # F22: `parse` with the default `--output debug` ({:#?} of the derived Debug impl), nesting >= 500
+# watchdog of a run whose (input, command) is in a recorded slow class (the default is 10 s): such a run can only show
+# "no panic / abort in the first seconds"; a timeout is booked in the class (after the control run)
+SLOW_WATCHDOG = {"F15": 3.0, "F21": 3.0, "F22": 1.5}
+
+
+def is_verify(cmd_id):
+    return cmd_id.startswith(("verify", "wide/verify"))
+
+
+def is_simplify(cmd_id):
+    return cmd_id.startswith(("simplify", "stdin/simplify", "chain/simplify"))
+
+
+def is_debug_parse(cmd_id):
+    return cmd_id.startswith(("parse/", "stdin/parse/")) and not cmd_id.endswith("/default-output")
+
+
+def slow_class(cmd_id, text, ms=None):
+    """the recorded SLOW class the pair (command, input) is in, or None - decided before the run"""
+    opdepth, nestdepth, width = ms or measures(text)
+    cls = None
+    if cmd_id.endswith("/no-simplify"):
+        cls = None
+    elif is_verify(cmd_id) and opdepth >= F15_OPDEPTH:
+        cls = "F15"
+    elif (is_verify(cmd_id) or is_simplify(cmd_id)) and width >= F21_WIDTH:
+        cls = "F21"
+    elif is_debug_parse(cmd_id) and opdepth >= F22_OPDEPTH:
+        cls = "F22"
+    return None if cls in closed_classes() else cls
+
+
+def closed_classes():
+    """the classes that are CLOSED in this run: their entry of known_findings.jsonl is not `known` any more (repaired), or
+    their recorded input no longer shows the symptom on the tree under test (props/C16.py probes the fast ones before the
+    stream and passes the result to the workers in the environment).  A crash of a closed class is a VIOLATION."""
+    return set(filter(None, os.environ.get("C16_CLOSED_CLASSES", "").split(",")))
+
+
+def classify(cmd_id, text, stderr, timed_out=False, rc=None, ms=None):
+    """The recorded class a crash belongs to, or None.  `text` is the input (bytes).  (For a timeout the caller
+    also requires the control run of the class to finish: run_input.)"""
+    cls = classify_open_or_closed(cmd_id, text, stderr, timed_out, rc, ms)
+    return None if cls in closed_classes() else cls
+
+
+def classify_open_or_closed(cmd_id, text, stderr, timed_out, rc, ms):
     if b"ParseIntError" in stderr and has_out_of_range_numeral(text):
         return "F3a"
     if (b"attempt to add with overflow" in stderr and b"tau_star.rs" in stderr
             and any(USIZE_MAX - 4096 < int(m.group(1)) <= USIZE_MAX for m in VNUM.finditer(text))):
         return "F11"
-    if timed_out and cmd_id.startswith("verify") and DEEP_TERM.search(text):
-        return "F15"
+    if timed_out:
+        return slow_class(cmd_id, text, ms)
+    if rc in (134, -6) and b"has overflowed its stack" in stderr and b"panicked at" not in stderr:
+        if (ms or measures(text))[1] >= F20_NESTDEPTH:
+            return "F20"
     return None
 
 
-DEEP_TERM = re.compile(rb"(?:-\(?|\(|\d+\s*[-+*]\s*\(|\s){100,}")
+def control_argv(cls, argv):
+    """the command line of the control run of a slow class: the same without the slow stage"""
+    if cls in ("F15", "F21") and argv[0] == "verify":
+        return argv[:1] + ["--no-simplify"] + argv[1:]
+    if cls == "F21" and argv[0] == "simplify":
+        return ["parse", "--as", "theory", "--output", "default"] + [a for a in argv[1:] if not a.startswith("--") and a not in
+                                                                      ("classic", "ht", "intuitionistic", "shallow", "recursive", "fixpoint")]
+    if cls == "F22" and argv[0] == "parse":
+        return argv[:1] + ["--output", "default"] + argv[1:]
+    return None
 
 
 def classify_inprocess(kind, text):
@@ -273,16 +407,117 @@ def cli_repeat_corpus():
     return out
 
 
+# ---- deep nesting: every shape up to what fits in 4 KB
+NEST_SHAPES = {
+    # programs
+    "term": lambda n: "p(" + "(" * n + "1" + ")" * n + ").\n",
+    "neg": lambda n: "p(" + "-(" * n + "X" + ")" * n + ") :- q(X).\n",
+    "minus": lambda n: "p(" + "-" * n + "1).\n",
+    "binop": lambda n: "p(" + "1+(" * n + "1" + ")" * n + ").\n",
+    "chain": lambda n: "p(" + "1+" * n + "1).\n",                              # left-nested: depth n
+    "chainx": lambda n: "p(" + "X*" * n + "X) :- q(X).\n",
+    "body": lambda n: "p :- q(" + "-" * n + "1), X = " + "1-" * (n // 2) + "1.\n",
+    "interval": lambda n: "p(" + "1.." * n + "1).\n",
+    # theories / specifications / user guides / proof outlines
+    "not": lambda n: "not " * n + "p(X).\n",
+    "notq": lambda n: "forall X (" + "not " * n + "p(X)).\n",
+    # (F16, repaired by 5394f74: rendering was exponential in this depth; a recurrence shows up as a timeout)
+    "quant": lambda n: "forall X (exists Y (" * (n // 2) + "p(X,Y)" + "))" * (n // 2) + ".\n",
+    "quantflat": lambda n: "".join(f"forall X{i} " for i in range(n)) + "p.\n",
+    "fparen": lambda n: "(" * n + "p" + ")" * n + ".\n",
+    "impl": lambda n: "p -> (" * n + "q" + ")" * n + ".\n",
+    "conj": lambda n: "p and " * n + "q.\n",                                    # left-nested
+    "rimp": lambda n: "p -> " * n + "q.\n",
+    "limp": lambda n: "p <- " * n + "q.\n",
+    "fminus": lambda n: "p(" + "-" * n + "1).\n",
+    "fchain": lambda n: "p(" + "N$i+" * n + "1).\n",
+    "cmp": lambda n: "1" + " < 1" * n + ".\n",                                    # one comparison with n guards
+}
+NEST_PROGRAM_SHAPES = ("term", "neg", "minus", "binop", "chain", "chainx", "body", "interval")
+NEST_FORMULA_SHAPES = tuple(k for k in NEST_SHAPES if k not in NEST_PROGRAM_SHAPES)
+NEST_PREFIXES = ["spec: ", "assumption: ", "lemma: ", "definition: ", "inductive-lemma: ", "assumption(forward): ", "input: p/0.\nassumption: "]
+MAX_BYTES = 4096
+
+
+def nest_text(shape, n, prefix=""):
+    return (prefix + NEST_SHAPES[shape](n)).encode()
+
+
+def nest_max(shape, prefix_len=32):
+    """the largest n with nest_text(shape, n) <= 4 KB"""
+    f = NEST_SHAPES[shape]
+    lo, hi = 1, 4096
+    while hi - lo > 1:
+        mid = (lo + hi) // 2
+        if len(f(mid)) + prefix_len <= MAX_BYTES:
+            lo = mid
+        else:
+            hi = mid
+    return lo
+
+
+# ---- wide arities: an atom / quantifier block with many DIFFERENT variables, with a user guide that declares the arities
+WIDE_FORMS = {
+    "head-arith": lambda xs: "p(" + ",".join(x + "+1" for x in xs) + ") :- q(" + ",".join(xs) + ").\n",
+    "plain": lambda xs: "p(" + ",".join(xs) + ") :- q(" + ",".join(xs) + ").\n",
+    "choice": lambda xs: "{p(" + ",".join(xs) + ")} :- q(" + ",".join(xs) + ").\n",
+    "body-arith": lambda xs: "p(" + ",".join(xs) + ") :- q(" + ",".join(x + "*2" for x in xs) + ").\n",
+    "compare": lambda xs: "p(" + ",".join(xs) + ") :- q(" + ",".join(xs) + ")" + "".join(f", {a} < {b}" for a, b in zip(xs, xs[1:])) + ".\n",
+    "negation": lambda xs: "p(" + ",".join(xs) + ") :- q(" + ",".join(xs) + "), not r(" + ",".join(xs) + ").\nr(" + ",".join(xs) + ") :- q(" + ",".join(xs) + "), " + xs[0] + " > 3.\n",
+    "body-literals": lambda xs: "p(" + xs[0] + ") :- " + ", ".join(f"q({a}*2,{b})" for a, b in zip(xs, xs[1:] + xs[:1])) + ".\n",
+    "facts": lambda xs: "p(" + ",".join(str(i) for i in range(len(xs))) + ").\np(" + ",".join(xs) + ") :- q(" + ",".join(xs) + ").\n",
+}
+WIDE_SIZES = [3, 8, 15, 20, 28] * 3 + [50, 75, 100, 150]      # (>= 40 is the recorded slow class F21: every verify / simplify costs a watchdog)
+
+
+def wide_text(r, form=None, n=None):
+    """(program bytes, user guide bytes, form, n): `output: p/n. input: q/n.`"""
+    form = form or r.choice(sorted(WIDE_FORMS))
+    n = n or r.choice(WIDE_SIZES)
+    while True:
+        text = WIDE_FORMS[form]([f"X{i}" for i in range(n)]).encode()
+        if len(text) <= MAX_BYTES:
+            break
+        n = n * 3 // 4
+    pa, qa = (1, 2) if form == "body-literals" else (n, n)
+    return text, f"output: p/{pa}.\ninput: q/{qa}.\n".encode(), form, n
+
+
+# ---- names that meet the names anthem itself creates: a symbolic constant / propositional atom / predicate x together
+# with x__s (renamed constant), x_p / x_1 (renamed private predicate), hx / tx (here-and-there copies), x__i ..., used
+# as propositional facts AND as terms (seeded/C16_r5: the renaming of a constant that clashes with an atom looped when the
+# renamed name was an atom too: `a. a__s. p(a).`)
+CLASH_AFFIXES = [("", ""), ("", "__s"), ("", "_p"), ("", "_1"), ("h", ""), ("t", ""), ("h", "__s"), ("", "__i"), ("", "__g"), ("", "__s__s")]
+
+
+def clash_mutant(r, text, toks):
+    names = sorted({t for t in toks if re.fullmatch(r"[a-z][A-Za-z0-9_]*", t) and t not in ("not", "and", "or", "forall", "exists", "input", "output")})
+    x = r.choice(names) if names and r.random() < 0.7 else r.choice(["a", "p", "q", "c"])
+    pred = r.choice([n for n in names if n != x] or ["p"])
+    facts = []
+    for pre, suf in CLASH_AFFIXES:
+        v = pre + x + suf
+        if r.random() < 0.7:
+            facts.append(f"{v}.")
+        if r.random() < 0.6:
+            facts.append(f"{pred}({v})." if r.random() < 0.7 else f"{pred}({v}) :- {v}.")
+    r.shuffle(facts)
+    base = text if r.random() < 0.5 else ""
+    return base.rstrip() + ("\n" if base else "") + "\n".join(facts) + "\n"
+
+
 def mutate(r, text):
     """one mutated variant of a text (str) -> bytes"""
     toks = TOK.findall(text)
-    kind = r.choices(["delete", "dup", "swap", "inflate", "inflate_in", "bigvar", "soup", "paren", "nest", "arity", "special", "bytes", "splice", "repeat"],
-                     [10, 10, 10, 10, 16, 6, 8, 8, 8, 4, 5, 4, 3, 14])[0]
+    kind = r.choices(["delete", "dup", "swap", "inflate", "inflate_in", "bigvar", "soup", "paren", "nest", "arity", "special", "bytes", "splice", "repeat", "clash"],
+                     [10, 10, 10, 10, 16, 6, 8, 8, 8, 4, 5, 4, 3, 14, 4])[0]
     idx = [i for i, t in enumerate(toks) if not t.isspace()]
     if kind in ("delete", "dup", "swap", "soup", "paren", "repeat") and not idx:
         kind = "special"
     if kind == "repeat":
         return repeat_mutant(r, toks, idx).encode()[:4096]
+    if kind == "clash":
+        return clash_mutant(r, text, toks).encode()[:4096]
     if kind == "delete":
         for _ in range(r.choice([1, 1, 2, 3])):
             if idx:
@@ -327,27 +562,19 @@ def mutate(r, text):
         else:
             toks.insert(r.choice(idx), r.choice(["(", ")", "((", "))", "{", "}"]))
     elif kind == "nest":
-        n = r.choice([20, 50, 100, 200, 300, 400])
-        shape = r.choice(["term", "neg", "not", "quant", "fparen", "minus", "binop", "impl"])
-        if shape in ("neg", "minus", "binop") and n >= 200 and r.random() < 0.6:
-            n = r.choice([20, 50, 90])        # (>= 100 is the recorded slow class F15: keep it rare, every hit costs 10 s)
-        if shape == "term":
-            return ("p(" + "(" * n + "1" + ")" * n + ").\n").encode()
-        if shape == "neg":
-            return ("p(" + "-(" * n + "X" + ")" * n + ") :- q(X).\n").encode()
-        if shape == "minus":
-            return ("p(" + "-" * n + "1).\n").encode()
-        if shape == "binop":
-            return ("p(" + "1+(" * n + "1" + ")" * n + ").\n").encode()
-        if shape == "not":
-            return (("not " * n) + "p(X)." ).encode() if r.random() < 0.5 else ("forall X (" + "not " * n + "p(X)).\n").encode()
-        if shape == "quant":
-            # (F16, repaired by 5394f74: rendering was exponential in this depth; a recurrence shows up as a timeout)
-            pairs = r.choice([4, 8, 13, 16, 25, 50, 100, 200])
-            return ("forall X (exists Y (" * pairs + "p(X,Y)" + "))" * pairs + ".\n").encode()
-        if shape == "fparen":
-            return ("(" * n + "p" + ")" * n + ".\n").encode()
-        return ("p -> (" * n + "q" + ")" * n + ".\n").encode()
+        shape = r.choice(sorted(NEST_SHAPES))
+        top = nest_max(shape)
+        # most are shallow and cheap; one in five fills the 4 KB ("a few KB" of the property); the deep ones of a
+        # program shape cost a watchdog per verify command (recorded slow class F15), so they are kept rarer
+        deep = 0.05 if shape in NEST_PROGRAM_SHAPES else 0.15
+        x = r.random()
+        if x < deep / 2:
+            n = top
+        elif x < deep:
+            n = r.choice([150, 250, 400, 700, 1000, 1500, 2000, 2800])
+        else:
+            n = r.choice([20, 50, 70])       # (well below the slow classes: time grows like the 3rd-4th power of the depth)
+        return nest_text(shape, min(n, top), r.choice(NEST_PREFIXES) if shape in NEST_FORMULA_SHAPES and r.random() < 0.3 else "")
     elif kind == "arity":
         n = r.choice([50, 300, 600, 1000])
         form = r.choice(["atom", "ug", "ugbig", "show"])
@@ -377,8 +604,10 @@ def mutate(r, text):
 
 # ------------------------------------------------------------------ commands
 
-FIX_PROGRAM = "q(X) :- p(X), not r(X).\n{r(X)} :- p(X).\n"
-FIX_PROGRAM2 = "q(X) :- p(X), not r(X).\nr(X) :- p(X), not q(X), X > 3.\n"
+# (the companion program must itself be accepted in every role: no choice rule / recursion on the private r/1)
+FIX_PROGRAM = "q(X) :- p(X), not r(X).\nr(X) :- p(X), X > 3.\n"
+FIX_PROGRAM2 = "q(X) :- p(X), not r(X).\nr(X) :- p(X), not q(X), X > 3.\n"     # (recursion through q/1: accepted only where q/1 is public)
+FIX_PROGRAM3 = "q(X) :- p(X), not r(X).\nr(X) :- p(X), X > 2+1.\n"            # (no recursion: accepted under any user guide without `input: q/1`)
 FIX_SPEC = "assumption: forall X (p(X) -> exists N$i (N$i = X)).\nspec: forall X (q(X) -> p(X)).\n"
 FIX_UG = "input: p/1.\noutput: q/1.\n"
 
@@ -398,11 +627,12 @@ def commands():
         cmds.append((f"analyze/{p}", "lp", lambda f, d, p=p: ["analyze", "--property", p, f]))
     V = ["verify", "--no-proof-search", "--save-problems"]
     cmds.append(("verify/strong/left", "lp", lambda f, d: V + [d + "/out", "--equivalence", "strong", f, d + "/fix.lp"]))
+    cmds.append(("verify/strong/no-simplify", "lp", lambda f, d: V + [d + "/out", "--equivalence", "strong", "--no-simplify", f, d + "/fix.lp"]))
     cmds.append(("verify/strong/right-mu", "lp", lambda f, d: V + [d + "/out", "--equivalence", "strong", "--formula-representation", "mu", d + "/fix.lp", f]))
     cmds.append(("verify/external/spec-program", "lp", lambda f, d: V + [d + "/out", "--equivalence", "external", f, d + "/fix.lp", d + "/fix.ug"]))
     cmds.append(("verify/external/program", "lp", lambda f, d: V + [d + "/out", "--equivalence", "external", "--bypass-tightness", d + "/fix.lp", f, d + "/fix.ug"]))
     cmds.append(("verify/external/specification", "spec", lambda f, d: V + [d + "/out", "--equivalence", "external", f, d + "/fix.lp", d + "/fix.ug"]))
-    cmds.append(("verify/external/user-guide", "ug", lambda f, d: V + [d + "/out", "--equivalence", "external", d + "/fix.lp", d + "/fix2.lp", f]))
+    cmds.append(("verify/external/user-guide", "ug", lambda f, d: V + [d + "/out", "--equivalence", "external", d + "/fix.lp", d + "/fix3.lp", f]))
     cmds.append(("verify/external/proof-outline", "po", lambda f, d: V + [d + "/out", "--equivalence", "external", d + "/fix.lp", d + "/fix2.lp", d + "/fix.ug", f]))
     return cmds
 
@@ -427,6 +657,24 @@ def crash_site(rr):
 
 def run_input_job(job):
     return run_input(*job)
+
+
+def pmap_jobs(jobs, heavy):
+    """run_input over all jobs in worker processes, results in order; the jobs whose index is in `heavy` (deep / wide
+    inputs: dozens of watchdog expiries each) are started first, one per task, so that they do not queue up behind
+    each other in one worker"""
+    import concurrent.futures
+    first = [i for i in range(len(jobs)) if i in heavy]
+    rest = [i for i in range(len(jobs)) if i not in heavy]
+    out = [None] * len(jobs)
+    with concurrent.futures.ProcessPoolExecutor(max_workers=clilib.NPROC) as ex:
+        a = ex.map(run_input_job, [jobs[i] for i in first], chunksize=1)
+        b = ex.map(run_input_job, [jobs[i] for i in rest], chunksize=4)
+        for i, r in zip(first, a):
+            out[i] = r
+        for i, r in zip(rest, b):
+            out[i] = r
+    return out
 
 
 # ------------------------------------------------------------------ accepted texts (printed generated trees)
@@ -480,9 +728,45 @@ def accepted_texts(seed, total):
     return out
 
 
-def run_input(exe, scratch, idx, text, task, only=None):
+WIDE_COMMANDS = [("wide/verify/external", []), ("wide/verify/external/forward", ["--direction", "forward"]),
+                 ("wide/verify/external/no-eq-break", ["--no-eq-break"])]
+CHAIN_SIMPLIFY = [(p, s) for p in ("classic", "ht", "intuitionistic") for s in ("shallow", "recursive", "fixpoint")]
+
+
+def run_one(exe, cid, argv, stdin, text, ms):
+    """one command under the watchdog -> (Run, class or None).  A timeout counts as a crash.  It is booked in a
+    recorded slow class only if the pair (command, input text) is in that class AND the control run of the class
+    (the same command line without the slow stage) finishes; otherwise it is retried once with 40 s."""
+    slow = slow_class(cid, text, ms)
+    rr = clilib.run([exe] + argv, stdin=stdin, timeout=SLOW_WATCHDOG[slow] if slow else 10.0)
+    if rr.timed_out and slow:
+        ctl = control_argv(slow, argv)
+        ok = False
+        if ctl:
+            cr = clilib.run([exe] + ctl, stdin=stdin, timeout=10.0)
+            if cr.timed_out:
+                cr = clilib.run([exe] + ctl, stdin=stdin, timeout=40.0)
+            # (the control run of a deep input may itself end in the recorded stack overflow F20: `verify --no-simplify`
+            # aborts from nesting 1167 on, where the run with simplification is still simplifying)
+            ok = (not cr.crashed and cr.rc == 0) or (cr.crashed and not cr.timed_out and classify(cid, text, cr.err, False, cr.rc, ms) == "F20")
+        if ok:
+            return rr, slow
+        slow = None
+    if rr.timed_out:
+        # 16 inputs run side by side: before calling it a hang, give it 40 s once more
+        rr2 = clilib.run([exe] + argv, stdin=stdin, timeout=40.0)
+        if not rr2.timed_out:
+            rr = rr2
+    if not rr.crashed:
+        return rr, None
+    return rr, (None if rr.timed_out else classify(cid, text, rr.err, False, rr.rc, ms))
+
+
+def run_input(exe, scratch, idx, text, task, only=None, wide=None):
     """all commands on one input (with `only`: the commands whose id starts with one of these prefixes);
-    returns a list of (cmd_id, argv, rc, crashed, class, site, stderr_tail)"""
+    `wide` = the user guide (bytes) that declares the predicates of the program `text`: the program is also verified
+    against itself under that user guide, and its tau-star translation goes through the nine simplify variants.
+    returns a list of (cmd_id, argv, rc, crashed, class, site, stderr_tail, has_output, wall seconds of the last attempt)"""
     import shutil
     d = os.path.join(scratch, f"i{idx}")
     os.makedirs(os.path.join(d, "out"))
@@ -490,8 +774,10 @@ def run_input(exe, scratch, idx, text, task, only=None):
         clilib.write(os.path.join(d, "in." + ext), text)
     clilib.write(os.path.join(d, "fix.lp"), FIX_PROGRAM)
     clilib.write(os.path.join(d, "fix2.lp"), FIX_PROGRAM2)
+    clilib.write(os.path.join(d, "fix3.lp"), FIX_PROGRAM3)
     clilib.write(os.path.join(d, "fix.spec"), FIX_SPEC)
     clilib.write(os.path.join(d, "fix.ug"), FIX_UG)
+    ms = measures(text)
     res = []
     todo = [(cid, build(os.path.join(d, "in." + ext), d), None) for cid, ext, build in commands()]
     for cid, argv in stdin_commands():
@@ -503,17 +789,25 @@ def run_input(exe, scratch, idx, text, task, only=None):
         repl = os.path.join(d, "in." + files[which].rsplit(".", 1)[1])
         tfiles = [repl if k == which else f for k, f in enumerate(files)]
         todo.append((f"verify/task/{eq}", ["verify", "--no-proof-search", "--save-problems", d + "/out", "--equivalence", eq] + flags + tfiles, None))
+    if wide is not None:
+        clilib.write(os.path.join(d, "wide.ug"), wide)
+        for cid, flags in WIDE_COMMANDS:
+            todo.append((cid, ["verify", "--no-proof-search", "--save-problems", d + "/out", "--equivalence", "external"] + flags
+                         + [d + "/in.lp", d + "/in.lp", d + "/wide.ug"], None))
     for cid, argv, stdin in todo:
-        rr = clilib.run([exe] + argv, stdin=stdin, timeout=10.0)
-        if rr.timed_out and classify(cid, text, rr.err, True) is None:
-            # 16 inputs run side by side: before calling it a hang, give it 40 s once more
-            rr2 = clilib.run([exe] + argv, stdin=stdin, timeout=40.0)
-            if not rr2.timed_out:
-                rr = rr2
+        rr, cls = run_one(exe, cid, argv, stdin, text, ms)
         crashed = rr.crashed
-        cls = classify(cid, text, rr.err, rr.timed_out) if crashed else None
         res.append((cid, argv, rr.rc, crashed, cls, crash_site(rr) if crashed else None, rr.err[-400:].decode("latin1") if crashed else "",
-                    len(rr.out) > 0))
+                    len(rr.out) > 0, rr.wall))
+        if wide is not None and cid == "translate/tau-star" and rr.rc == 0 and not crashed:
+            # what anthem printed goes back in: the nine simplify variants on the tau-star theory of the wide program
+            clilib.write(os.path.join(d, "chain.th"), rr.out)
+            for p, s in CHAIN_SIMPLIFY:
+                ccid = f"chain/simplify/{p}/{s}"
+                cargv = ["simplify", "--portfolio", p, "--strategy", s, d + "/chain.th"]
+                cr, ccls = run_one(exe, ccid, cargv, None, rr.out, measures(rr.out))
+                res.append((ccid, cargv, cr.rc, cr.crashed, ccls, crash_site(cr) if cr.crashed else None,
+                            cr.err[-400:].decode("latin1") if cr.crashed else "", len(cr.out) > 0, cr.wall))
     shutil.rmtree(d, ignore_errors=True)
     return res
 
